@@ -218,6 +218,21 @@ func (in *Interp) installStubs4() {
 		}
 		return SliceV{arr, 0, len(xs), len(xs)}
 	}
+	S["strings.ContainsAny"] = func(in *Interp, a []Value) Value {
+		sb, cs := in.bytesOf(a[0]), in.bytesOf(a[1])
+		r := st.F
+		for _, b := range sb {
+			for _, c := range cs {
+				r = st.Or(r, st.Eq(b, c))
+			}
+		}
+		for _, c := range cs {
+			if c.IsConst() && c.Val.Uint64() >= 0x80 {
+				abortf("unsupported: strings.ContainsAny with non-ASCII characters")
+			}
+		}
+		return r
+	}
 	// ---- strings helpers that the stdlib implements with assembly-backed or unsafe code ----
 	S["strings.Repeat"] = func(in *Interp, a []Value) Value {
 		s := a[0].(Str)
